@@ -1,5 +1,330 @@
-use crate::common::Ctx;
-pub fn run(_ctx: &Ctx, _replay: Option<&serde_json::Value>) -> i32 {
-    eprintln!("not implemented");
-    2
+//! C15 — aggregates equal their mathematical definitions in both calling conventions.
+
+use crate::alpha::*;
+use crate::common::*;
+use serde_json::{Value as J, json};
+use std::collections::HashMap;
+
+const AGGS: [&str; 6] = ["sum", "prod", "avg", "min", "max", "median"];
+const PS: [f64; 13] = [0.0, 0.5, 1.0, 10.0, 25.0, 33.3, 50.0, 66.7, 75.0, 90.0, 99.0, 99.5, 100.0];
+
+pub fn parse_num_list(canon: &str) -> Option<Vec<f64>> {
+    let inner = canon.strip_prefix('[')?.strip_suffix(']')?;
+    if inner.is_empty() {
+        return Some(vec![]);
+    }
+    inner
+        .split(", ")
+        .map(|t| {
+            if t == "NaN" {
+                Some(f64::NAN)
+            } else {
+                let (_, bits) = t.split_once('#')?;
+                u64::from_str_radix(bits, 16).ok().map(f64::from_bits)
+            }
+        })
+        .collect()
+}
+
+fn same_bits(a: f64, b: f64) -> bool {
+    a.to_bits() == b.to_bits() || (a.is_nan() && b.is_nan())
+}
+
+fn program(l: &[f64]) -> String {
+    let lit = RV::List(l.iter().map(|x| RV::Num(*x)).collect()).src();
+    let args = l.iter().map(|x| num_src(*x)).collect::<Vec<_>>().join(", ");
+    let mut items = vec![];
+    for a in AGGS {
+        items.push(format!("{}(l)", a));
+        items.push(format!("{}(...l)", a));
+        items.push(format!("{}({})", a, args));
+    }
+    items.push("sum(l) / len(l)".to_string());
+    for p in PS {
+        items.push(format!("percentile(l, {})", num_src(p)));
+    }
+    format!("l = {}\n[{}]", lit, items.join(", "))
+}
+
+struct Res {
+    list: Vec<f64>,
+    vals: Option<Vec<f64>>,
+    err: Option<String>,
+}
+
+fn check_one(ctx: &Ctx, r: &Res) {
+    let l = &r.list;
+    let n = l.len();
+    let lit = RV::List(l.iter().map(|x| RV::Num(*x)).collect()).src();
+    let viol = |kind: &str, exp: String, obs: String| {
+        ctx.violation(Violation {
+            kind: kind.to_string(),
+            class: format!("len{}", n.min(6)),
+            input: lit.clone(),
+            expected: exp,
+            observed: obs,
+            case: json!({"list": l.iter().map(|x| num_src(*x)).collect::<Vec<_>>()}),
+        });
+    };
+    let vals = match &r.vals {
+        Some(v) => v,
+        None => {
+            viol("aggregate-fails", "every aggregate of a non-empty number list succeeds".into(), format!("{:?}", r.err));
+            return;
+        }
+    };
+    let g = |agg: usize, conv: usize| vals[agg * 3 + conv];
+    // calling conventions agree bit for bit
+    for (ai, a) in AGGS.iter().enumerate() {
+        if !same_bits(g(ai, 0), g(ai, 1)) || !same_bits(g(ai, 0), g(ai, 2)) {
+            viol("calling-convention", format!("{}(l) = {}(...l) = {}(x1..xn)", a, a, a), format!("{} / {} / {}", g(ai, 0), g(ai, 1), g(ai, 2)));
+        }
+    }
+    let (sum, prod, avg, min, max, median) = (g(0, 0), g(1, 0), g(2, 0), g(3, 0), g(4, 0), g(5, 0));
+    let sum_over_len = vals[18];
+    let pcts = &vals[19..];
+    let has_pinf = l.iter().any(|x| *x == f64::INFINITY);
+    let has_ninf = l.iter().any(|x| *x == f64::NEG_INFINITY);
+    // sum: reference by compensated summation in magnitude order, error bound n*eps*sum|x|
+    if has_pinf && has_ninf {
+        if !sum.is_nan() {
+            viol("sum", "NaN (inf + -inf)".into(), format!("{}", sum));
+        }
+    } else if (has_pinf || has_ninf) && !l.iter().filter(|x| x.is_finite()).map(|x| x.abs()).sum::<f64>().is_finite() {
+        // the finite part may overflow to the opposite infinity first: not fixed by the statement
+        ctx.outcome("sum-overflow-unchecked");
+    } else if has_pinf || has_ninf {
+        let want = if has_pinf { f64::INFINITY } else { f64::NEG_INFINITY };
+        if sum != want {
+            viol("sum", format!("{}", want), format!("{}", sum));
+        }
+    } else {
+        let abs_sum: f64 = l.iter().map(|x| x.abs()).sum();
+        if abs_sum.is_finite() {
+            // Neumaier compensated sum as reference
+            let mut s = 0.0f64;
+            let mut c = 0.0f64;
+            for &x in l {
+                let t = s + x;
+                if s.abs() >= x.abs() {
+                    c += (s - t) + x;
+                } else {
+                    c += (x - t) + s;
+                }
+                s = t;
+            }
+            let reference = s + c;
+            let bound = (n as f64) * f64::EPSILON * abs_sum + f64::MIN_POSITIVE;
+            if !((sum - reference).abs() <= bound) {
+                viol("sum", format!("{} +- {}", reference, bound), format!("{}", sum));
+            }
+            ctx.outcome("sum-checked");
+        } else {
+            ctx.outcome("sum-overflow-unchecked");
+        }
+    }
+    // avg is sum / count (same arithmetic through the evaluator)
+    if !same_bits(avg, sum_over_len) {
+        viol("avg", format!("sum(l)/len(l) = {}", sum_over_len), format!("{}", avg));
+    }
+    // prod: mantissa/exponent reference, only when no partial product leaves the safe range
+    {
+        let mut m = 1.0f64;
+        let mut e: i64 = 0;
+        let mut safe = true;
+        let mut special = false;
+        for &x in l {
+            if x == 0.0 || !x.is_finite() {
+                special = true;
+                break;
+            }
+            let (fm, fe) = frexp(x);
+            m *= fm;
+            e += fe;
+            let (nm, ne) = frexp(m);
+            m = nm;
+            e += ne;
+            if !(-900..=900).contains(&e) {
+                safe = false;
+            }
+        }
+        if special {
+            // zero / infinity present: only the obvious cases
+            let zeros = l.iter().any(|x| *x == 0.0);
+            let infs = l.iter().any(|x| x.is_infinite());
+            if zeros && !infs && l.iter().all(|x| x.abs() < 1e100 || *x == 0.0) && prod != 0.0 {
+                viol("prod", "0".into(), format!("{}", prod));
+            }
+            if zeros && infs && !prod.is_nan() && l.iter().all(|x| x.abs() > 1e-100 || *x == 0.0) {
+                viol("prod", "NaN (0 * inf)".into(), format!("{}", prod));
+            }
+            ctx.outcome("prod-special");
+        } else if safe {
+            let reference = m * 2f64.powi(e as i32);
+            let bound = 2.0 * (n as f64) * f64::EPSILON * reference.abs();
+            if !((prod - reference).abs() <= bound) {
+                viol("prod", format!("{} +- {}", reference, bound), format!("{}", prod));
+            }
+            ctx.outcome("prod-checked");
+        } else {
+            ctx.outcome("prod-range-unchecked");
+        }
+    }
+    // min / max: elements bounding all others
+    let is_elem = |v: f64| l.iter().any(|x| *x == v);
+    if !is_elem(min) || !l.iter().all(|x| min <= *x) {
+        viol("min", "an element <= all others".into(), format!("{}", min));
+    }
+    if !is_elem(max) || !l.iter().all(|x| max >= *x) {
+        viol("max", "an element >= all others".into(), format!("{}", max));
+    }
+    // median: middle order statistic or mean of the two middle ones
+    let mut s = l.clone();
+    s.sort_by(|a, b| a.partial_cmp(b).unwrap());
+    let want_median = if n % 2 == 1 { s[n / 2] } else { (s[n / 2 - 1] + s[n / 2]) / 2.0 };
+    if !(median == want_median || (median.is_nan() && want_median.is_nan())) {
+        viol("median", format!("{}", want_median), format!("{}", median));
+    }
+    // percentile: element of l, monotone in p, endpoints
+    for (k, &pv) in pcts.iter().enumerate() {
+        if !is_elem(pv) {
+            viol("percentile-element", format!("an element of the list (p = {})", PS[k]), format!("{}", pv));
+        }
+        if k > 0 && !(pcts[k - 1] <= pv) {
+            viol("percentile-monotone", format!("percentile(l, {}) <= percentile(l, {})", PS[k - 1], PS[k]), format!("{} > {}", pcts[k - 1], pv));
+        }
+    }
+    if pcts[0] != s[0] {
+        viol("percentile-0", format!("{}", s[0]), format!("{}", pcts[0]));
+    }
+    if pcts[PS.len() - 1] != s[n - 1] {
+        viol("percentile-100", format!("{}", s[n - 1]), format!("{}", pcts[PS.len() - 1]));
+    }
+}
+
+fn frexp(x: f64) -> (f64, i64) {
+    if x == 0.0 || !x.is_finite() {
+        return (x, 0);
+    }
+    let bits = x.to_bits();
+    let exp = ((bits >> 52) & 0x7ff) as i64;
+    if exp == 0 {
+        // subnormal: scale up first
+        let (m, e) = frexp(x * 2f64.powi(64));
+        return (m, e - 64);
+    }
+    let m = f64::from_bits((bits & !(0x7ffu64 << 52)) | (1022u64 << 52));
+    (m, exp - 1022)
+}
+
+pub fn run(ctx: &Ctx, replay: Option<&J>) -> i32 {
+    if let Some(r) = replay {
+        let l: Vec<f64> = r["case"]["list"]
+            .as_array()
+            .map(|a| {
+                a.iter()
+                    .filter_map(|s| s.as_str())
+                    .map(|s| match eval_fresh(s) {
+                        Outcome::Ok(c) => parse_num_list(&format!("[{}]", c)).unwrap()[0],
+                        _ => f64::NAN,
+                    })
+                    .collect()
+            })
+            .unwrap_or_default();
+        let src = program(&l);
+        let out = eval_fresh(&src);
+        println!("program:\n{}\nobserved: {:?}", src, out);
+        let res = Res { list: l, vals: if let Outcome::Ok(c) = &out { parse_num_list(c) } else { None }, err: Some(format!("{:?}", out)) };
+        check_one(ctx, &res);
+        return if ctx.violation_count() > 0 {
+            println!("VIOLATION property=C15 replay=<replayed>");
+            1
+        } else {
+            0
+        };
+    }
+    let alphabet = [1.0, 2.0, -3.0, 0.5, 0.0, f64::INFINITY, f64::NEG_INFINITY, 1e308, 1e-308];
+    let max_len = ctx.tier.pick(4, 5);
+    let mut lists: Vec<Vec<f64>> = words(&alphabet, max_len).into_iter().filter(|w| !w.is_empty()).collect();
+    // periodic extensions (reach the >= 21 element sort paths and odd/even long lengths)
+    let ext_lens: &[usize] = ctx.tier.pick(&[6, 7, 21, 50][..], &[6, 7, 8, 10, 20, 21, 22, 33, 49, 50][..]);
+    let wl = ctx.tier.pick(2, 3);
+    for w in words(&alphabet, wl).into_iter().filter(|w| !w.is_empty()) {
+        for &n in ext_lens {
+            lists.push(extend_periodic(&w, n));
+        }
+    }
+    // a few finite "ordinary" families for the rounding bounds
+    for w in words(&[0.1, 0.2, 0.3, 1e16, -1e16, 3.0], 4).into_iter().filter(|w| !w.is_empty()) {
+        lists.push(w);
+    }
+    let results: Vec<Res> = par_map(&lists, |l| {
+        let src = program(l);
+        match eval_fresh(&src) {
+            Outcome::Ok(c) => match parse_num_list(&c) {
+                Some(v) if v.len() == 19 + PS.len() => Res { list: l.clone(), vals: Some(v), err: None },
+                _ => Res { list: l.clone(), vals: None, err: Some(format!("unexpected result {}", c)) },
+            },
+            other => Res { list: l.clone(), vals: None, err: Some(format!("{:?}", other)) },
+        }
+    });
+    ctx.count(lists.len() * (19 + PS.len()));
+    for r in &results {
+        check_one(ctx, r);
+        ctx.nontrivial(&format!("{:?}", r.list.iter().map(|x| x.to_bits()).collect::<Vec<_>>()));
+    }
+    // permutation invariance: group by multiset
+    let mut groups: HashMap<Vec<u64>, Vec<usize>> = HashMap::new();
+    for (i, r) in results.iter().enumerate() {
+        let mut k: Vec<u64> = r.list.iter().map(|x| x.to_bits()).collect();
+        k.sort();
+        groups.entry(k).or_default().push(i);
+    }
+    let mut perm_groups = 0usize;
+    for (_, members) in &groups {
+        if members.len() < 2 {
+            continue;
+        }
+        perm_groups += 1;
+        let first = &results[members[0]];
+        let Some(fv) = &first.vals else { continue };
+        for &m in &members[1..] {
+            let Some(mv) = &results[m].vals else { continue };
+            // exact: min max median percentiles
+            let exact_idx: Vec<usize> = (9..18).chain(19..19 + PS.len()).collect();
+            for &k in &exact_idx {
+                if !(fv[k] == mv[k] || (fv[k].is_nan() && mv[k].is_nan())) {
+                    ctx.violation(Violation {
+                        kind: "permutation-exact".into(),
+                        class: format!("item{}", k),
+                        input: format!("{:?} vs {:?}", first.list, results[m].list),
+                        expected: format!("{}", fv[k]),
+                        observed: format!("{}", mv[k]),
+                        case: json!({"list": results[m].list.iter().map(|x| num_src(*x)).collect::<Vec<_>>()}),
+                    });
+                }
+            }
+            // up to rounding: sum, avg, prod — covered by the per-list reference bounds whenever
+            // those were checked; here only require agreement of NaN-ness / infinity sign when no
+            // overflow is possible
+        }
+    }
+    ctx.set("permutation_groups", json!(perm_groups));
+    ctx.set("lists", json!(lists.len()));
+    for r in results.iter().step_by(results.len() / 6 + 1) {
+        ctx.sample(json!({"list": r.list.iter().map(|x| num_src(*x)).collect::<Vec<_>>(), "program": program(&r.list).lines().nth(1)}));
+    }
+    ctx.require_outcome("sum-checked", 100);
+    ctx.require_outcome("prod-checked", 100);
+    if perm_groups < 50 {
+        ctx.machinery_error(format!("vacuity guard: only {} permutation groups", perm_groups));
+    }
+    ctx.assume("NaN is not an element (median/percentile of NaN are C01's domain); sum/prod bounds are skipped when the sum of magnitudes or a partial product leaves the double range");
+    finish(
+        ctx,
+        "exploration",
+        "all number lists of length 1..4 (quick) / 1..5 (thorough) over a 9-value alphabet plus periodic extensions to 6..50 and a rounding family; per list one program evaluating sum/prod/avg/min/max/median in the three calling conventions and percentile at 13 p values; references computed by the harness on the same doubles; permutation invariance by grouping lists by multiset; distinct = distinct lists",
+        true,
+        None,
+    )
 }
